@@ -29,6 +29,7 @@ EXPLANATION = (
     "pragma regexes with the quote flag at each call site (T14), who-may-construct for Position / PositionRange and a ban on "
     "arithmetic over their fields (T3), sibling agreement of the attribute parsers (T12)."
 )
+EXPLANATION += " " + 'Plus: comment loops never stop early, JSDoc scan only for `/** */` comments, `with` wins over `assert` in dynamic-import options.'
 NOT_DECIDED = "exactly-once, unescaping, the offset arithmetic (+2, +-1), behaviour under non-ASCII / CRLF inside SourceTextInfo, Dependency::includes geometry"
 ASSUMPTIONS = ["swc's Visit trait dispatches visit_* per node type and visit_children_with recurses into all children"]
 
